@@ -250,9 +250,39 @@ type StepObs struct {
 	L1, L2 []fakemc.Entry
 }
 
+// OracleMiss is a step at which the implementation's reply differs from the specification's.
+type OracleMiss struct {
+	Step    int
+	Verdict string
+}
+
+// Outcome of one scenario.
+type Outcome struct {
+	Div     *Divergence
+	Tainted bool
+	Obs     []StepObs
+	Misses  []OracleMiss
+	Script  []string
+	Descs   []string
+}
+
 // RunScenario executes sc on the implementation and on the model and returns the first divergence
 // (nil if none), whether the case was tainted by a clock tick, and the per-step observations.
 func RunScenario(d *Driver, sc Scenario, timeout time.Duration) (*Divergence, bool, []StepObs) {
+	o := RunScenarioO(d, sc, timeout, false)
+	return o.Div, o.Tainted, o.Obs
+}
+
+// RunScenarioO is RunScenario with the specification oracle evaluated on every fed command
+// (one command per feed).
+func RunScenarioO(d *Driver, sc Scenario, timeout time.Duration, oracle bool) (res Outcome) {
+	div, tainted, obs := runScenario(d, sc, timeout, oracle, &res)
+	res.Div, res.Tainted, res.Obs = div, tainted, obs
+	res.Script = append([]string{}, d.Script...)
+	return
+}
+
+func runScenario(d *Driver, sc Scenario, timeout time.Duration, oracle bool, res *Outcome) (*Divergence, bool, []StepObs) {
 	st := GetStack(sc.Stack)
 	st.Reset()
 	if sc.Stack.L1 == "inmem" {
@@ -317,17 +347,28 @@ func RunScenario(d *Driver, sc Scenario, timeout time.Duration) (*Divergence, bo
 		if len(toks) > 0 {
 			d.Send("tok "+strings.Join(toks, " "), 0)
 		}
-		sent, _ := cl.Sentinel()
-		res := d.Send(fmt.Sprintf("feed %s %s", s.Conn, hx(append(append([]byte{}, data...), sent...))), 4)
+		sent, sentReply := cl.Sentinel()
+		if oracle && s.Cmd.Kind != "raw" {
+			body := out
+			if ending == "eof" && len(out) >= len(sentReply) {
+				body = out[:len(out)-len(sentReply)]
+			}
+			v := d.Send(fmt.Sprintf("oracle %s %s %s", s.Conn, hx(data), hx(body)), 1)
+			if !strings.HasPrefix(v[0], "oracle ok") && !strings.HasPrefix(v[0], "oracle skip") {
+				res.Misses = append(res.Misses, OracleMiss{Step: i, Verdict: v[0]})
+			}
+		}
+		r4 := d.Send(fmt.Sprintf("feed %s %s", s.Conn, hx(append(append([]byte{}, data...), sent...))), 4)
 		implOut := fmt.Sprintf("out %s %s", canonN(256, out), ending)
-		if res[0] != implOut {
-			return diverge(i, "reply", implOut, res[0]), false, obs
+		res.Descs = descs
+		if r4[0] != implOut {
+			return diverge(i, "reply", implOut, r4[0]), false, obs
 		}
-		if t := "trace1 " + traceLine(l1); strings.TrimSpace(t) != strings.TrimSpace(res[1]) {
-			return diverge(i, "L1 requests", t, res[1]), false, obs
+		if t := "trace1 " + traceLine(l1); strings.TrimSpace(t) != strings.TrimSpace(r4[1]) {
+			return diverge(i, "L1 requests", t, r4[1]), false, obs
 		}
-		if t := "trace2 " + traceLine(l2); strings.TrimSpace(t) != strings.TrimSpace(res[2]) {
-			return diverge(i, "L2 requests", t, res[2]), false, obs
+		if t := "trace2 " + traceLine(l2); strings.TrimSpace(t) != strings.TrimSpace(r4[2]) {
+			return diverge(i, "L2 requests", t, r4[2]), false, obs
 		}
 		// backend contents (sampled within one wall-clock second)
 		for _, tf := range []struct {
